@@ -146,7 +146,7 @@ impl ReaderScript {
 /// Reads allowed after the reader has ended (EOF / sticky error) before the liveness monitor fires.
 pub const POST_END_READ_LIMIT: u64 = 20_000;
 /// Bytes an endless reader hands out before the liveness monitor fires.
-pub const ENDLESS_BYTE_LIMIT: u64 = 96 * 1024 * 1024;
+pub const ENDLESS_BYTE_LIMIT: u64 = 8 * 1024 * 1024;
 
 #[derive(Debug, Default)]
 pub struct ReaderState {
